@@ -13,7 +13,7 @@ package reftable
 //@ ghostgroup yielded = noneYet, yRefSeq, yRefName, yRefIdx, yRefVal, yRefValLen, yRefTV, yRefTVLen, yRefTarget, yRefDel, wRefAtYield, refsDone, yLogSeq, yLogName, yLogIdx, yLogNew, yLogNewLen, yLogOld, yLogOldLen, yLogPName, yLogEmail, yLogTime, yLogTZ, yLogMsg, wLogAtYield, logsDone
 //@ ghostgroup pv = pvPrev, pvLast, pvPrevVal, pvLastVal
 //@ ghostgroup stream = itRef, itTab, itLo, itStrict
-//@ ghostgroup taken = wRefSeq, wRefName, wRefIdx, wRefVal, wRefValLen, wRefTV, wRefTVLen, wRefTarget, wLogSeq, wLogName, wLogIdx, wLogNew, wLogNewLen, wLogOld, wLogOldLen, wLogPName, wLogEmail, wLogTime, wLogTZ, wLogMsg, nameChecks
+//@ ghostgroup taken = wRefSeq, wRefName, wRefIdx, wRefVal, wRefValLen, wRefTV, wRefTVLen, wRefTarget, wLogSeq, wLogName, wLogIdx, wLogNew, wLogNewLen, wLogOld, wLogOldLen, wLogPName, wLogEmail, wLogTime, wLogTZ, wLogMsg, nameChecks, wClosedMin
 
 // The value of a k-byte varint (the "offset" encoding of the format: each continuation adds one before shifting), written
 // out for k = 1..10 bytes. Both the decoder and the encoder are specified against these closed forms (C01, layer 1).
@@ -1553,9 +1553,12 @@ package reftable
 //@   ensures[type-byte] result.buf[result.headerOff] == typ
 
 // coarse protocol-level contract (the format clauses are under C14)
+// wClosedMin: the lower update-index limit of the table most recently finished by Writer.Close (ghost)
+//@ ghost wClosedMin uint64
 //@ func (*Writer).Close
 //@   trusted
 //@   modifies w.ALLFIELDS, anyof(*blockWriter), taken, anyof([]byte), anyof([]uint32), anyof([]indexRecord), pv
+//@   sets wClosedMin = w.minUpdateIndex
 
 // Assumption about the caller-supplied transaction function: it writes only to the Writer it is given (and fresh memory).
 //@ callback (*Addition).Add#write
@@ -1585,6 +1588,7 @@ package reftable
 //@   callsite (*Stack).checkAddition 1 ghost pending = len(tr.newTables)
 //@   requires addInv(tr) && tr.lockFileName != ""
 //@   modifies held, ownsTmp, tblExists, fileClosed, fileOf, listNames, listLen, lastReadNames, lastReadLen, appends, commits, buflen, bufdata, lastDelta, lastSought, tr.names, tr.names[:cap(tr.names)], tr.newTables, tr.newTables[:cap(tr.newTables)], tr.nextUpdateIndex, anyof(*blockWriter), retired, rdClosed, taken, seekOn, seekName, seekIdx, yielded, anyof([]byte), anyof([]uint32), anyof([]indexRecord), pv, stream, nameChecks
+//@   ensures[a-table-joins-the-transaction-only-at-or-above-its-next-update-index] {C05} result == nil && len(tr.newTables) == old(len(tr.newTables)) + 1 ==> wClosedMin >= old(tr.nextUpdateIndex)
 //@   ensures[inv-a1] tr != nil && tr.stack == old(tr.stack) && tr.lockFileName == old(tr.lockFileName) && tr.lockFile == old(tr.lockFile) && appends == old(appends) && commits == old(commits)
 //@   ensures[inv-a2] heldWf()
 //@   ensures[inv-a3] sizesOKforStack(tr.stack)
@@ -1997,6 +2001,28 @@ package reftable
 //@   pure
 
 //@ axiom refSuffixIsNoLock: forall n string :: len(n) >= 4 && n[len(n)-4:] == ".ref" ==> !isLock(n)
+
+// C19: the file block source reads with ReadAt only. ReadAt does not touch the file's offset; Seek and Read do
+// (ghost filePos), so a ReadBlock that positions the shared descriptor and then reads fails its frame.
+//@ ghost filePos map[ref]int
+//@ extern (*os.File).ReadAt
+//@   params f, b, off
+//@   modifies b[:]
+//@   ensures 0 <= result0 && result0 <= len(b)
+//@ extern (*os.File).Seek
+//@   params f, offset, whence
+//@   modifies filePos
+//@ extern (*os.File).Read
+//@   params f, b
+//@   modifies filePos, b[:]
+//@   ensures 0 <= result0 && result0 <= len(b)
+//@ func (*fileBlockSource).ReadBlock
+//@   props C19
+//@   modifies nothing
+//@   ensures result1 == nil ==> len(result0) <= size || size < 0
+//@ func (*fileBlockSource).Size
+//@   props C19
+//@   pure
 
 // trusted: opens a file read-only (may fail with ENOENT when a racing compaction removed it)
 //@ func NewFileBlockSource
